@@ -85,7 +85,7 @@ func vkC09HistStr(h []vkC09Ev) string {
 func vkC09Events(thorough bool) []vkC09Ev {
 	var evs []vkC09Ev
 	pubs := []string{"honest", "intro", "cosign", "k2signs", "k2only", "k1gone", "revoke", "revself", "revintro", "revnoself",
-		"collide", "collrev", "collrevonly", "forged", "unsigned", "revk2", "k2k3", "revshadow", "revshadow2"}
+		"collide", "collrev", "collrevonly", "forged", "unsigned", "revk2", "k2k3", "revshadow", "revshadow2", "riderch"}
 	for _, p := range pubs {
 		evs = append(evs, vkC09Ev{Kind: "ref", Pub: p})
 	}
@@ -224,6 +224,11 @@ type vkC09Step struct {
 // classify authenticates the publication against the reference's own trusted set.
 func (r *vkC09Ref) classify(p *vkC09Pub) vkC09Step {
 	st := vkC09Step{Auth: "none", Present: map[string]bool{}}
+	if p.Rider != "" {
+		// a DNSKEY record outside the signed RRset travels with it: the response is not an authenticated
+		// DNSKEY set (reference reading: it changes nothing; sdns rejects such a refresh as a whole)
+		return st
+	}
 	full := false
 	for _, s := range p.Sigs {
 		if !strings.HasSuffix(s, "r") && r.trusted(s) {
